@@ -7,5 +7,8 @@ let lookup (p : string) : Model.sexp -> Model.sexp =
   | "c17" -> Model.run_c17
   | "c18" -> Model.run_c18
   | "c01" -> Model.run_c01
+  | "c03" -> Model.run_c01
+  | "c04" -> Model.run_c01
+  | "c19" -> Model.run_c19
   | "c06" -> Model.run_c06
   | _ -> failwith ("unknown property " ^ p)
